@@ -145,7 +145,7 @@ class C11(Spec):
             "Position() after each). Generated: all bool/byte/int16 values; int32 (fixed and 7-bit of the same value): "
             "boundaries 2^(7k)+-2, 2^(8k)+-2, all 7-bit group patterns over boundary digits, values with <= 2 non-trivial byte "
             "lanes over 00/ff background (quick: 1/2 sample, thorough: all 786432), random; whole blocks of 2^16 consecutive int32 "
-            "patterns folded into one CRC per block (quick 20, thorough 128 in the compared script + 3072 more in parallel shards; "
+            "patterns folded into one CRC per block (quick 20, thorough 64 in the compared script + 2048 more in parallel shards; "
             "VERIF_C11_SWEEP=full sweeps all 2^32); int64 boundary/lane/random; "
             "bytes/strings with lengths across 127/128, 16383/16384 (thorough also 2^21) and non-UTF-8 content; random typed "
             "sequences. distinct by script line; non-trivial = at least one value whose encoding has more than one byte")
@@ -283,10 +283,11 @@ class C11(Spec):
                 mo = ex["model"][i] if i < len(ex["model"]) else ""
                 if im != mo or self.oracle(s, im) is not None:
                     bad.append(int(s.split()[1]))
-        # thorough tier: parallel sweep over many more blocks (VERIF_C11_SWEEP=full: all 65536 = every int32 value,
-        # about half an hour on 16 cores; VERIF_C11_SWEEP=<n>: n blocks; default 3072 blocks = 2e8 values; 0 = off)
+        # thorough tier: parallel sweep over more blocks (VERIF_C11_SWEEP=full: all 65536 = every int32 value, about
+        # 9 CPU-hours of the Lean model = half an hour on 16 idle cores; VERIF_C11_SWEEP=<n>: n blocks; default 2048 blocks
+        # = 1.3e8 values, 16 CPU-minutes; 0 = off)
         if ctx["tier"] == "thorough" and os.path.exists(C.driver_path(self.driver)):
-            mode = os.environ.get("VERIF_C11_SWEEP", "3072")
+            mode = os.environ.get("VERIF_C11_SWEEP", "2048")
             if mode == "full":
                 blocks = list(range(65536))
             else:
